@@ -44,8 +44,12 @@ func (a *Activation) model(name string, fn *ssa.Function, args []Val, st *State,
 		return st, []Val{{K: KF64, S: c, T: types.Typ[types.Float64]}}, true
 	case "math/rand.Float32":
 		t.assumed["math/rand.Float32 returns an arbitrary float32 in [0,1)"] = true
-		c := t.fresh("rand32", "(_ FloatingPoint 8 24)")
-		t.assume(st.pc, sAnd("(fp.leq (_ +zero 8 24) "+c+")", "(fp.lt "+c+" "+f32Lit(1)+")"))
+		c := t.fresh("rand32", sortOfKind(KF32))
+		if t.bv {
+			t.assume(st.pc, sAnd("(fp.leq (_ +zero 8 24) "+c+")", "(fp.lt "+c+" "+f32Lit(1)+")"))
+		} else {
+			t.assume(st.pc, sAnd("(<= 0.0 "+c+")", "(< "+c+" 1.0)"))
+		}
 		t.modelSyms = append(t.modelSyms, c)
 		return st, []Val{{K: KF32, S: c, T: types.Typ[types.Float32]}}, true
 	case "time.NewTimer":
